@@ -19,7 +19,7 @@ Lemma ds_plain_stable c t k :
   stable_or_rejected (ds_init_plain c t) (iterate repaired c t k (ds_init_plain c t)).
 Proof.
   intros Hacc Hp Hsh. induction k as [|k IH]; [reflexivity|].
-  cbn [iterate]. unfold ds_update. rewrite Hsh.
+  cbn [iterate]. unfold ds_update. cbn [bB1 repaired andb]. rewrite Hsh.
   destruct (ds_plain_fixed_point c t Hacc Hp Hsh) as [E|E]; rewrite E; cbn [obind].
   - exact IH.
   - reflexivity.
@@ -31,7 +31,7 @@ Lemma ds_sharded_stable c t l k :
   iterate repaired c t k l = Ok l.
 Proof.
   intros Hacc Hp Hsh Hnd Hpos Hinit. induction k as [|k IH]; [reflexivity|].
-  cbn [iterate]. unfold ds_update. rewrite Hsh.
+  cbn [iterate]. unfold ds_update. cbn [bB1 repaired andb]. rewrite Hsh.
   rewrite (ds_sharded_fixed_point c t l Hacc Hp Hsh Hnd Hpos Hinit). cbn [obind]. exact IH.
 Qed.
 
@@ -52,14 +52,15 @@ Qed.
 Fixpoint iter_upd (upd : layout -> outcome layout) (k : nat) (l : layout) : outcome layout :=
   match k with O => Ok l | S k' => do l' <- upd l; iter_upd upd k' l' end.
 
-Theorem sm3_layout_fixed_point t l k : sm3_init t = Ok l -> iter_upd (sm3_update t) k l = Ok l.
+Theorem sm3_layout_fixed_point d t l k :
+  sm3_init d t = Ok l -> iter_upd (sm3_update repaired d t) k l = Ok l.
 Proof.
   intro H. induction k as [|k IH]; [reflexivity|].
-  cbn [iter_upd]. rewrite (sm3_fixed_point t l H). exact IH.
+  cbn [iter_upd]. rewrite (sm3_fixed_point d t l H). exact IH.
 Qed.
 
 Theorem tf_layout_fixed_point c t l k :
-  shapes_pos c t -> tf_init repaired c t = Ok l -> iter_upd (tf_update c t) k l = Ok l.
+  shapes_pos c t -> tf_init repaired c t = Ok l -> iter_upd (tf_update repaired c t) k l = Ok l.
 Proof.
   intros Hp H. induction k as [|k IH]; [reflexivity|].
   cbn [iter_upd]. rewrite (tf_fixed_point c t l Hp H). exact IH.
@@ -135,14 +136,14 @@ Qed.
 (* ------------------------------------------------------------------------------------------ *)
 Definition base_cfg : dscfg :=
   mkDS 8 4096 true 1 0 false false false false 1 1 false 1 false false false 1 4096 1 true false 0
-       false false.
+       false false F32.
 Definition tree1 : layout := Node KDict [SZs [0; 1]] [Leaf [8; 6] F32; Leaf [] F32].
 Definition tree0 : layout := Node KDict [SZs []] [].
 
 (* 1x1 statistics (block_size = 1), the empty tree, a compressed configuration *)
 Example ex_block1 :
   let c := mkDS 1 4096 true 1 0 false false false false 1 1 false 1 false false false 1 4096 1 true
-                false 0 false false in
+                false 0 false false F32 in
   iterate repaired c tree1 3 (ds_init_plain c tree1) = Ok (ds_init_plain c tree1).
 Proof. vm_compute. reflexivity. Qed.
 
@@ -152,7 +153,7 @@ Proof. vm_compute. reflexivity. Qed.
 
 Definition fd_cfg (reuse avg fdm metrics x64 : bool) : dscfg :=
   mkDS 8 4096 true 1 1 true false avg reuse 1 1 false 1 false false false 1 4096 1 metrics fdm 0
-       false x64.
+       false x64 F32.
 
 Example ex_fd_repaired :
   let c := fd_cfg true true true true true in
@@ -160,8 +161,17 @@ Example ex_fd_repaired :
   iterate repaired c tree1 3 (ds_init_plain c tree1) = Ok (ds_init_plain c tree1).
 Proof. vm_compute. split; reflexivity. Qed.
 
+(* bfloat16 parameters, int8 momentum with bfloat16 bucket sizes: layout stable (repaired) *)
+Example ex_bf16_repaired :
+  let c := mkDS 4 4096 true 1 0 false false false false 1 1 false 3 true true false 1 4096 1 true
+                false 0 false false BF16 in
+  let t := Node KDict [SZs [0; 1]] [Leaf [3; 4] BF16; Leaf [5] BF16] in
+  iterate repaired c t 3 (ds_init_plain c t) = Ok (ds_init_plain c t) /\
+  updates_layout t = t.
+Proof. vm_compute. split; reflexivity. Qed.
+
 Example ex_sizes_positive : sizes_positive (mkDS 4 4096 true 1 0 false false false false 1 1 false 1
-  false false true 2 4096 1 true false 0 false false) (leaves tree1).
+  false false true 2 4096 1 true false 0 false false F32) (leaves tree1).
 Proof. vm_compute. repeat constructor; discriminate. Qed.
 
 (* --- refutations: today's code, modelled by [as_is] --- *)
@@ -179,7 +189,7 @@ Theorem d8_refuted : exists c t l l',
   ds_init as_is c t = Ok l /\ ds_update as_is c t l = Ok l' /\ layout_eqb l l' = false.
 Proof.
   exists (mkDS 8 4096 true 1 1 true false true true 1 1 false 1 false false false 1 4096 1 true
-               false 0 false false), tree1.
+               false 0 false false F32), tree1.
   eexists. eexists. split; [|split]; vm_compute; reflexivity.
 Qed.
 
@@ -188,7 +198,7 @@ Theorem n9_refuted : exists c t l l',
   ds_init as_is c t = Ok l /\ ds_update as_is c t l = Ok l' /\ layout_eqb l l' = false.
 Proof.
   exists (mkDS 8 4096 true 1 1 true false false true 1 1 false 1 false false false 1 4096 1 true
-               true 0 false false), tree1.
+               true 0 false false F32), tree1.
   eexists. eexists. split; [|split]; vm_compute; reflexivity.
 Qed.
 
@@ -197,7 +207,7 @@ Theorem d10_refuted : exists c t l d,
   ds_init as_is c t = Ok l /\ ds_declared as_is c t = Ok d /\ layout_eqb l d = false.
 Proof.
   exists (mkDS 4 4096 true 1 0 false false false false 1 1 false 1 true false true 1 4096 1 true
-               false 0 false false), tree1.
+               false 0 false false F32), tree1.
   eexists. eexists. split; [|split]; vm_compute; reflexivity.
 Qed.
 
@@ -210,7 +220,7 @@ Proof.
   split; [|split].
   - exists (fd_cfg true false false true true), tree1. eexists. split; vm_compute; reflexivity.
   - exists (mkDS 2 4096 true 1 2 false false false false 1 1 false 1 false false false 1 4096 1
-                 true false 0 false false), tree1. eexists. split; vm_compute; reflexivity.
+                 true false 0 false false F32), tree1. eexists. split; vm_compute; reflexivity.
   - exists (fd_cfg true false true false false), tree1. eexists. split; vm_compute; reflexivity.
 Qed.
 
